@@ -121,10 +121,10 @@ def obligations(tier):
                         [("n", 1, n2), ("m", 1, 2), ("c", 1, n2), ("c2", 1, n2), ("d", 1, 2), ("d2", 1, 2), ("M", 0, 8 * n2 * 2 * 5 + 40)] + P,
                         bounds=f"(n<= {n2}) x (m<=3) arrays, all chunkings, allowed_mem range covering every copy-chunk choice",
                         witness_rule=lambda m: m["c"] != m["c2"], **common))
-    obls.append(Obl("grid[store-existing-target,leaf-source]", _mk(lambda n, c, tc: SG.b_store_whole(n, c, tc, 0), ["n", "c", "tc"]),
-                    [("n", 1, N), ("c", 1, N), ("tc", 1, N)] + P[:1], bounds=f"n, source chunk, target chunk <= {N}", witness_rule=lambda m: m["c"] != m["tc"], **common))
-    obls.append(Obl("grid[store-existing-target,computed-source]", _mk(lambda n, c, tc: SG.b_store_whole(n, c, tc, 1), ["n", "c", "tc"]),
-                    [("n", 1, N), ("c", 1, N), ("tc", 1, N)] + P[:1], bounds=f"n, source chunk, target chunk <= {N}", witness_rule=lambda m: m["c"] != m["tc"], **common))
+    obls.append(Obl("grid[store-existing-target,leaf-source]", _mk(lambda n, c, tc, oreg: SG.b_store_whole(n, c, tc, 0, oreg), ["n", "c", "tc", "oreg"]),
+                    [("n", 1, N), ("c", 1, N), ("tc", 1, N), ("oreg", 0, 1)] + P[:1], bounds=f"n, source chunk, target chunk <= {N}", witness_rule=lambda m: m["c"] != m["tc"], **common))
+    obls.append(Obl("grid[store-existing-target,computed-source]", _mk(lambda n, c, tc, oreg: SG.b_store_whole(n, c, tc, 1, oreg), ["n", "c", "tc", "oreg"]),
+                    [("n", 1, N), ("c", 1, N), ("tc", 1, N), ("oreg", 0, 1)] + P[:1], bounds=f"n, source chunk, target chunk <= {N}", witness_rule=lambda m: m["c"] != m["tc"], **common))
     obls.append(Obl("grid[store-region]", _mk(SG.b_store_region, ["n", "c", "tn", "tc", "a"]),
                     [("n", 1, 6), ("c", 1, 6), ("tn", 1, 9), ("tc", 1, 6), ("a", 0, 6)] + P[:1],
                     bounds=f"source n<= {N}, target length <= {N+4}, every region offset, source and target chunk sizes independent", witness_rule=lambda m: m["c"] != m["tc"], **common))
@@ -132,8 +132,8 @@ def obligations(tier):
     obls.append(Obl("grid[store-sharded-target]", _mk(SG.b_store_sharded, ["n", "c", "sh"]), [("n", 1, N), ("c", 1, N), ("sh", 1, N)] + P[:1],
                     bounds=f"n, source chunk, shard size <= {N}", witness_rule=lambda m: m["c"] != m["sh"], **common))
     obls.append(Obl("grid[store-sharded-target,inner-chunks]", _mk(SG.b_store_sharded_inner, ["n", "c", "ic", "k", "a", "use_region"]),
-                    [("n", 1, N), ("c", 1, N), ("ic", 1, 3), ("k", 1, 3), ("a", 0, 6), ("use_region", 0, 1)] + P[:1],
-                    bounds=f"n, source chunk <= {N}; inner chunks 1..3, shards of 1..3 inner chunks; whole store or a region at offset 0..6",
+                    [("n", 1, 6), ("c", 1, 6), ("ic", 1, 2), ("k", 1, 3), ("a", 0, 4), ("use_region", 0, 1)] + P[:1],
+                    bounds="n, source chunk <= 6; inner chunks 1..2, shards of 1..3 inner chunks; whole store or a region at offset 0..4",
                     witness_rule=lambda m: m["k"] >= 2, **common))
     for name in ("sum", "concat", "index[slice]", "subtract[different-chunks]", "unstack", "repeat"):
         _, vs = c01.SCENARIOS[name]
